@@ -14,6 +14,7 @@ func init() {
 			c.EntryAlignment("C01", s, "att")
 			c.StateStoreDiscipline("C01", s, "att")
 			c.RulerLocking("C01")
+			c.LockerInternals("C15") // holding the key's lock means holding it: Lock returns only with the key's one mutex acquired
 			c.RulerKeyAgreement("C01")
 			c.RulerPositions("C01")
 			c.SignIffApproved("C01", map[string]bool{"SignBeaconAttestation": true, "SignBeaconAttestations": true})
